@@ -23,7 +23,9 @@ func mkParams(ps []pspec) []*runtimev2.Param {
 	for _, p := range ps {
 		q := &runtimev2.Param{Name: p.Name, Variable: p.Var}
 		if p.Def {
-			q.Val = func() any { return "DEF" }
+			// a default is made anew for every call that omits the parameter: the value is mutable, and the
+			// function under test marks the one it received
+			q.Val = func() any { return map[string]any{"def": true} }
 		}
 		r = append(r, q)
 	}
@@ -51,6 +53,11 @@ func callSrc(args []argSpec, nilLast bool) string {
 		}
 	}
 	return "f(" + strings.Join(parts, ", ") + ")\n"
+}
+
+func isDefault(v any) bool {
+	m, ok := v.(map[string]any)
+	return ok && m["def"] == true
 }
 
 // bindOnce loads and runs `f(args)` against the declared parameters with the real v2 engine
@@ -85,8 +92,13 @@ func bindOnce(params []*runtimev2.Param, src string) (res string) {
 						}
 					}
 					mine = append(mine, "list["+strings.Join(es, " ")+"]")
-				case v == "DEF":
-					mine = append(mine, "default")
+				case isDefault(v):
+					if m := v.(map[string]any); m["seen"] != nil {
+						mine = append(mine, "default-used-before")
+					} else {
+						m["seen"] = true
+						mine = append(mine, "default")
+					}
 				case v == nil:
 					mine = append(mine, "value0")
 				default:
@@ -118,6 +130,15 @@ func bindOnce(params []*runtimev2.Param, src string) (res string) {
 	}
 	if second := strings.Join(got, ","); second != first {
 		return "rebound(first: " + first + " then: " + second + ")"
+	}
+	// the verdict is about the call and the table in force: against a table that does not know f the same
+	// loaded script is rejected, whatever an earlier check left on its call nodes
+	saved := s.Fn
+	s.Fn = map[string]*runtimev2.Fn{}
+	cerr := s.Check()
+	s.Fn = saved
+	if cerr == nil {
+		return "accepted-by-a-table-without-f(first: " + first + ")"
 	}
 	return first
 }
